@@ -147,6 +147,13 @@ def run(ctx):
                         if s == 1.0 and n <= (4 if ctx.quick() else 5):
                             if tie: ctx.cov['discarded'] += 1
                             else: tterms.append(f'({n}%nat, {dmat(fl(An))}, {dmat(fl(P))}, {dmat(fl(B))})')
+                # the only keyword option of the entry points (verbose) must not change the answer
+                try:
+                    with quiet(): lamv, Vv = eig.quaternion_eigendecomposition(An, verbose=True); lam0, V0 = eig.quaternion_eigendecomposition(An)
+                    with quiet(): lw = eig.quaternion_eigenvalues(An, verbose=True); Vw = eig.quaternion_eigenvectors(An, verbose=True)
+                    if not (np.array_equal(np.asarray(lamv), np.asarray(lam0)) and np.array_equal(quaternion.as_float_array(Vv), quaternion.as_float_array(V0)) and np.array_equal(np.asarray(lw), np.asarray(lam0)) and np.array_equal(quaternion.as_float_array(Vw), quaternion.as_float_array(V0))):
+                        viol(f'C08:eigen:verbose-changes-answer:{cls}{suffix}', 'verbose=True (or the eigenvalues / eigenvectors wrappers) returns something else than the default call', inp)
+                except Exception as e: viol(f'C08:eigen:raises:{cls}{suffix}', f'quaternion_eigendecomposition(verbose=True) raised {e!r} on a Hermitian matrix', inp)
                 try:
                     with quiet(): lam, V = eig.quaternion_eigendecomposition(An)
                 except Exception as e: viol(f'C08:eigen:raises:{cls}{suffix}', f'quaternion_eigendecomposition raised {e!r} on a Hermitian matrix', inp); continue
